@@ -4,6 +4,7 @@ import os
 from .. import core, patterns as P
 
 POOL = ["/", "/a", "/a/1", "/{x}", "/a/{x}", "/a/{x:dig}", "/*", "/a[/{x}]"]
+POOL_STRICT = ["/a", "/a/", "/a/{x}", "/*", "/{x}"]
 EXTRA = [("/", "a", "/", "1"), ("/", "a", "/", "a"), ("/", "1", "/", "a"), ("/", "a", "/", "1", "/", "a"),
          ("a",), ("/", "a", "/"), ("SP", "/", "a", "SP")]
 ALL9 = ["GET", "POST", "PUT", "PATCH", "DELETE", "OPTIONS", "HEAD", "CONNECT", "TRACE"]
@@ -11,17 +12,17 @@ DEV = dict(D_IrregularOverwrite=False, D_QuotedStart=False, D_VarlessOptionalIrr
            D_InterceptRaw=False, D_FallbackBeforeHead=False, D_AllowProbeHeadFallback=False)
 
 
-def rcfg(maxtable, method_sets, req_methods, intercepts, emit=True, **dev):
+def rcfg(maxtable, method_sets, req_methods, intercepts, emit=True, stricts=(False,), **dev):
     c = dict(DEV)
     c.update(dev)
     c.update(MaxLen=3, MaxTable=maxtable, MethodSets=core.SetOfSets(method_sets), ReqMethods=set(req_methods),
-             Intercepts=set(intercepts))
-    return core.cfg(constants=c, invariants=["ResolveAgree"] + (["Emit"] if emit else []))
+             Intercepts=set(intercepts), Stricts=set(stricts))
+    return core.cfg(constants=c, invariants=["ResolveAgree", "ResolveAgreeS"] + (["Emit"] if emit else []))
 
 
-def pooldef():
+def pooldef(pool=POOL):
     pd = os.path.join(core.scratch(), "PoolDef.tla")
-    open(pd, "w").write(P.pooldef(POOL, chars=("/", "a", "1", "*"), extra_paths=EXTRA))
+    open(pd, "w").write(P.pooldef(pool, chars=("/", "a", "1", "*"), extra_paths=EXTRA))
     return pd
 
 
@@ -47,6 +48,19 @@ def run(chk):
     chk.add_tlc(res, "tables<=2 x 4 option sets x intercepts %s" % icpts)
     chk.absorb(core.run_harness(["resolve", "replay", out], timeout=3000), "resolve")
     os.remove(out)
+    # StrictLastSlash: a trailing slash is significant for routes, requests and the intercept path alike
+    pds = pooldef(POOL_STRICT)
+    with open(out, "w") as fo:
+        def cb2(o):
+            fo.write(json.dumps(o, separators=(",", ":")))
+            fo.write("\n")
+        res = core.run_tlc("MC_Resolve", cfg_text=rcfg(2, [["GET"], ["GET", "POST"], ["POST"]], reqm, ["off", "/a/", "a"] + ([" /a ", "/a"] if thorough else []),
+                                                       stricts=(True,)), extra_files=[pds], timeout=1800, keep_lines=False, line_cb=cb2)
+    chk.expect_holds(res, "QuickMatch = Resolve (StrictLastSlash)")
+    chk.add_tlc(res, "strict routers: tables<=2 over %s x 4 option sets x intercepts" % POOL_STRICT)
+    chk.absorb(core.run_harness(["resolve", "replay", out], timeout=3000), "resolve")
+    os.remove(out)
+    pd = pooldef()
     chk.exhaustive = True
     if thorough:   # the repository's own tests as a trace source
         from . import repo
